@@ -1,6 +1,7 @@
 package main
 
 import (
+	"bytes"
 	"context"
 	"crypto/tls"
 	"errors"
@@ -400,6 +401,20 @@ func probeSched(f []string) string {
 			}
 		}
 	})
+	for _, ev := range strings.Split(f[3], ";") {
+		if a := strings.SplitN(ev, ":", 2); a[0] == "closeonread" {
+			// Server.Close from another goroutine at the moment the command loop reads the line that contains the marker: between the
+			// loop's test for a closed connection and the handler's call into the backend
+			srv.Debug = &markWriter{marker: unhx(a[1]), fn: func() {
+				done := make(chan struct{})
+				go func() { srv.Close(); close(done) }()
+				select {
+				case <-done:
+				case <-time.After(2 * time.Second):
+				}
+			}}
+		}
+	}
 	before := runtime.NumGoroutine()
 	l := &oneShot{c: conn, closed: make(chan struct{})}
 	served := make(chan error, 1)
@@ -429,6 +444,8 @@ func probeSched(f []string) string {
 			lateStart.Store(true)
 		case "holddeliver":
 			holdDeliver.Store(true)
+		case "closeonread":
+			// set up before Serve started (see above)
 		case "slowns":
 			be.nsDelayMs.Store(int64(atoi(a[1])))
 		case "slowlogout":
@@ -547,4 +564,23 @@ func init() {
 	probes["accept"] = probeAccept
 	probes["accept2"] = probeAccept2
 	probes["sched"] = probeSched
+}
+
+// markWriter is a Server.Debug writer that runs fn once, when the octets written to it contain marker
+type markWriter struct {
+	marker []byte
+	fn     func()
+	seen   []byte
+	done   bool
+}
+
+func (m *markWriter) Write(p []byte) (int, error) {
+	if !m.done {
+		m.seen = append(m.seen, p...)
+		if bytes.Contains(m.seen, m.marker) {
+			m.done = true
+			m.fn()
+		}
+	}
+	return len(p), nil
 }
